@@ -103,10 +103,6 @@ func addDecimals(receiver object.Object, objType object.ObjectType, args ...obje
 		val = receiver.(*object.Int).String()
 	}
 
-	if !utils.StrIsInt(val) {
-		return &object.Str{Value: val}, nil
-	}
-
 	separator := "."
 	decimals := 2
 
@@ -140,6 +136,12 @@ func addDecimals(receiver object.Object, objType object.ObjectType, args ...obje
 			msg := fmt.Sprintf(fail.ErrFuncResultTooLong, "decimal", objType, maxStrLen)
 			return nil, errors.New(msg)
 		}
+	}
+
+	// the arguments are checked for every receiver, also for one
+	// that is not an integer and is returned as it is
+	if !utils.StrIsInt(val) {
+		return &object.Str{Value: val}, nil
 	}
 
 	zeros := strings.Repeat("0", decimals)
